@@ -146,12 +146,13 @@ def gen_messages(tier, rng):
                 nvar = len(reqs)
             if tier == "quick" and len(sub) >= 2:
                 nvar = min(nvar, 3)
-            for j in range(nvar):
+            reps = nvar if tier == "quick" else nvar * 3     # thorough: three rotations of every value assignment
+            for j in range(reps):
                 kw = dict(reqs[ri % len(reqs)])
                 ri += 1
                 for i in sub:
                     vals = slots[i][1]
-                    kw.update(vals[(j + i) % len(vals)])
+                    kw.update(vals[(j + i * (1 + j // max(1, nvar))) % len(vals)])
                 yield cname, kw
 
 
@@ -238,7 +239,7 @@ def run_gen(job):
         if all(isinstance(r, list) and r[2] == fields for r in rec["rt"].values()):
             pool.append((cname, kw))
     # batches of 2 and 7 (and 1) through the batched serializers: same N messages, same order
-    nb = 40 if job["tier"] == "quick" else 400
+    nb = 40 if job["tier"] == "quick" else 600
     for _ in range(nb):
         if not pool:
             break
